@@ -73,3 +73,70 @@ Lemma refresh_with_expired_empties_cache :
   let s := run allpol nodecay c (init_st c 0) [Tick 0 (AOk [Pgood]) 0; Send 1799000000000; Tick 1800000000000 (AOk [Pstale]) 0] in
   s_cached s = [] /\ s_active s = None /\ s_err s = 0 /\ s_next_refetch s = 1860000000000 /\ s_panic s = None.
 Proof. vm_compute. exact (conj eq_refl (conj eq_refl (conj eq_refl (conj eq_refl eq_refl)))). Qed.
+
+(** C06-backoff-outlasts-threshold (open).  The validator accepts a backoff ceiling above the
+    expiry threshold.  Threshold 60 s, backoff 60 s x 1.5 up to 300 s.  Paths X (expires 500 s,
+    2 hops), Y (600 s, 3 hops), Z (9000 s, 4 hops).  The tick at 440 s (= 500 - 60) finds the
+    lookup failing, moves the slot from X to Y; the tick at 530 s fails again, Y has 70 s left
+    (valid, kept), the next tick is at 665 s.  From 600 s to 665 s the slot holds the expired Y:
+    senders get nothing although Z is cached and valid. *)
+Definition cfg_bo : cfg :=
+  mkCfg 1 2 50 1800000000000 60000000000 60000000000 100000000000000 60000000000 300000000000 3 2 0 100 10000000000 (1 # 2).
+Definition PX : path := mkPath 0 0 1 2 (Some 500) None None None 2.
+Definition PY : path := mkPath 1 1 1 2 (Some 600) None None None 3.
+Definition PZ : path := mkPath 2 2 1 2 (Some 9000) None None None 4.
+Lemma backoff_outlasts_threshold :
+  cfg_valid cfg_bo = true /\ (c_thresh cfg_bo <? c_bo_max cfg_bo) = true /\
+  let evs := [Tick 0 (AOk [PX; PY; PZ]) 0; Send 1000000000; Tick 440000000000 AErr 0; Send 441000000000;
+              Tick 530000000000 AErr 0; Send 599000000000; Send 601000000000] in
+  let s := run allpol nodecay cfg_bo (init_st cfg_bo 0) evs in
+  outs allpol nodecay cfg_bo (init_st cfg_bo 0) evs
+    = [OTick true; OPath PX; OTick true; OPath PY; OTick true; OPath PY; ONoPath]
+  /\ s_next_refetch s = 665000000000
+  /\ existsb (fun e => is_valid cfg_bo 601000000000 (e_path e)) (s_cached s) = true.
+Proof. vm_compute. exact (conj eq_refl (conj eq_refl (conj eq_refl (conj eq_refl eq_refl)))). Qed.
+
+(** * C07 -- open findings *)
+(* two disjoint 3-hop paths src -> AS(10+id) -> dst *)
+Definition mk7 (id e1 e2 : N) : path :=
+  mkPath id id 1 2 (Some 20000) (Some [(1, e1); (10 + id, 2); (10 + id, e2); (2, 4)]) (Some (1, e1)) (Some (2, 4)) 3.
+Definition PA := mk7 0 1 3.      (* leaves AS 10 through interface 3 *)
+Definition PB := mk7 1 5 7.      (* leaves AS 11 through interface 7 *)
+
+(** C07-hysteresis-keeps-failed.  Both paths are cached, PA is in use.  PB's interface is
+    reported down at 1 s; at 2 s PA's interface is reported down.  PB is valid and avoids the
+    interface that just failed, but both scores are now -1 + 0.094: the gap 0 is below the swap
+    threshold 0.5, the active path is KEPT, and the next send still uses the failed interface. *)
+Definition hysteresis_history : list ev :=
+  [Tick 0 (AOk [PA; PB]) 0; Send 0;
+   Report 1000000000 (IInterfaceDown 11 7); Deliver 1000000000;
+   Report 2000000000 (IInterfaceDown 10 3); Deliver 2000000000; Send 2000000000].
+Lemma hysteresis_keeps_failed :
+  let c := default_cfg 1 2 in
+  outs allpol nodecay c (init_st c 0) hysteresis_history
+  = [OTick true; OPath PA; OReported true; ODelivered true; OReported true; ODelivered true; OPath PA]
+  /\ affected (IInterfaceDown 10 3) PA = true /\ affected (IInterfaceDown 10 3) PB = false
+  /\ is_valid c 2000000000 PB = true.
+Proof. vm_compute. exact (conj eq_refl (conj eq_refl (conj eq_refl eq_refl))). Qed.
+(* the same with the real decay shape (30 s later the alternative's penalty has only decayed
+   to -0.79): use the halving step function *)
+Definition halving (b : Q) (t h : N) : Q := (b * (1 # Pos.pow 2 (N.succ_pos (t / h))) * 2)%Q.
+Lemma hysteresis_keeps_failed_after_30s :
+  let c := default_cfg 1 2 in
+  let evs := [Tick 0 (AOk [PA; PB]) 0; Send 0; Report 1000000000 (IInterfaceDown 11 7); Deliver 1000000000;
+              Report 31000000000 (IInterfaceDown 10 3); Deliver 31000000000; Send 31000000000] in
+  last (outs allpol halving c (init_st c 0) evs) ONone = OPath PA.
+Proof. vm_compute. reflexivity. Qed.
+
+(** C07-ingress-not-matched.  PA enters AS 10 through interface 2 and the destination AS through
+    interface 4.  A report that one of these interfaces is down matches nothing: the state is
+    unchanged and the next send still uses PA although PB avoids the interface. *)
+Lemma ingress_not_matched :
+  let c := default_cfg 1 2 in
+  let evs i := [Tick 0 (AOk [PA; PB]) 0; Send 0; Report 1000000000 i; Deliver 1000000000; Send 1000000000] in
+  last (outs allpol nodecay c (init_st c 0) (evs (IInterfaceDown 10 2))) ONone = OPath PA
+  /\ last (outs allpol nodecay c (init_st c 0) (evs (IInterfaceDown 2 4))) ONone = OPath PA
+  /\ class_ingress (IInterfaceDown 10 2) PA = true /\ class_ingress (IInterfaceDown 2 4) PA = true
+  /\ affected (IInterfaceDown 10 2) PB = false
+  /\ matches_path (TInterface 10 None 2) PA = false.
+Proof. vm_compute. exact (conj eq_refl (conj eq_refl (conj eq_refl (conj eq_refl (conj eq_refl eq_refl))))). Qed.
